@@ -556,3 +556,68 @@ class CellRemoveVertices(Contract):
 
 
 CONTRACTS = CONTRACTS + [CellRemoveCells, CellRemoveVertices]
+
+
+class MaskedCopyNative(Contract):
+    """Bounded stand-in (CellObject.copy re-indexes cells with numpy fancy indexing inside a loop
+    over children of mixed kinds): after a masked copy of a curve, vertex data follow the kept
+    vertices, cell data follow the kept cells (both ends kept), whatever the order in which the
+    data children were created -- also when the curve has as many cells as vertices."""
+    target = "geoh5py/objects/cell_object.py::CellObject.copy"
+    variant = "masked-copy"
+    symbolic = False
+    has_native = True
+    props = ("C07", "C12")
+    bounded_scope = "open (n-1 cells) and closed (n cells) curves with 5-6 vertices, vertex and cell data created in either order, 8 vertex masks each (exhaustive over the listed shapes)"
+
+    def native_cases(self, tier, rng):
+        masks6 = [[1, 1, 0, 1, 1, 1], [0, 1, 1, 1, 1, 1], [1, 1, 1, 1, 1, 0], [1, 0, 1, 0, 1, 1], [1, 1, 1, 0, 0, 1], [0, 0, 1, 1, 1, 1], [1, 1, 1, 1, 1, 1], [1, 1, 0, 0, 1, 1]]
+        for closed in (False, True):
+            for order in ("cell-first", "vertex-first"):
+                for m in masks6:
+                    yield {"n": 6, "closed": closed, "order": order, "mask": m}
+
+    def native_check(self, case):
+        from geoh5py.objects import Curve
+        from geoh5py.workspace import Workspace
+
+        n = case["n"]
+        verts = np.c_[np.arange(n, dtype=float), np.arange(n, dtype=float) ** 2, np.zeros(n)]
+        cells = [[i, i + 1] for i in range(n - 1)] + ([[n - 1, 0]] if case["closed"] else [])
+        mask = np.array(case["mask"], dtype=bool)
+        with Workspace() as ws:
+            c = Curve.create(ws, vertices=verts, cells=np.array(cells, dtype="uint32"), name="c")
+            vvals, cvals = np.arange(n, dtype=float) + 100, np.arange(len(cells), dtype=float) + 500
+            specs = [("cd", cvals, "CELL"), ("vd", vvals, "VERTEX")]
+            if case["order"] == "vertex-first":
+                specs.reverse()
+            for name, vals, assoc in specs:
+                c.add_data({name: {"values": vals.copy(), "association": assoc}})
+            try:
+                new = c.copy(mask=mask)
+            except Exception as exc:
+                return f"masked copy raised {type(exc).__name__}: {exc} ({case})"
+            keep_cells = [k for k, (a, b) in enumerate(cells) if mask[a] and mask[b]]
+            used = sorted({v for k in keep_cells for v in cells[k]})
+            if new is None:
+                return None if not keep_cells else f"nothing copied although {len(keep_cells)} cells survive ({case})"
+            got_v = np.asarray(new.vertices)
+            # the copy keeps the masked vertices (or only those still used by a cell): data must follow whichever were kept
+            src_index = [int(np.where((verts == row).all(axis=1))[0][0]) for row in got_v]
+            vd = new.get_data("vd")[0].values
+            if vd is None or len(vd) != len(got_v) or not np.allclose(np.asarray(vd, dtype=float), vvals[src_index], equal_nan=True):
+                return f"vertex data of the copy {None if vd is None else np.asarray(vd).tolist()} do not follow its vertices (source entries {vvals[src_index].tolist()}) ({case})"
+            got_c = np.asarray(new.cells).astype(int)
+            ends = [tuple(src_index[i] for i in cell) for cell in got_c]
+            src_cells = [cells.index(list(e)) if list(e) in cells else None for e in ends]
+            if None in src_cells:
+                return f"a cell of the copy joins coordinates no source cell joins ({case})"
+            cd = new.get_data("cd")[0].values
+            if cd is None or len(cd) != len(got_c) or not np.allclose(np.asarray(cd, dtype=float), cvals[src_cells], equal_nan=True):
+                return f"cell data of the copy {None if cd is None else np.asarray(cd).tolist()} do not follow its cells (source entries {cvals[src_cells].tolist()}) ({case})"
+            if sorted(src_cells) != keep_cells:
+                return f"the copy keeps cells {sorted(src_cells)} but the cells with both ends kept are {keep_cells} ({case})"
+        return None
+
+
+CONTRACTS = CONTRACTS + [MaskedCopyNative]
